@@ -893,7 +893,30 @@ fn judge_connects(sim: &mut Sim<'_>) {
                         sim.rep.probes.inc("connect_blocked_by_full_backlog");
                     }
                 } else {
-                    sim.rep.probes.inc("connect_backlog_uncertain_unjudged");
+                    // room that appears while the connector is still retransmitting its SYN: once the listener
+                    // has handed out enough of the other connections (by round R), even all the remaining ones
+                    // together leave a slot free from R on; a SYN that is (re)sent after R must get in
+                    let t = sim.sc.cfg.retx_threshold as u64;
+                    let last_syn = start + t * (sim.sc.cfg.retx_max as u64).saturating_sub(1);
+                    let mut rs: Vec<u64> = (0..sim.cs.len()).filter(|&j| j != c && sim.sc.conns[j].to == Some(l)).filter_map(|j| sim.cs[j].accepted_round).collect();
+                    rs.sort();
+                    let room_from = rs.iter().copied().find(|&r| {
+                        let left = (0..sim.cs.len())
+                            .filter(|&j| j != c && sim.sc.conns[j].to == Some(l) && sim.cs[j].started.map(|s| s <= end).unwrap_or(false) && !sim.cs[j].accepted_round.map(|a| a <= r).unwrap_or(false))
+                            .count();
+                        left < backlog
+                    });
+                    match room_from {
+                        Some(r) if clean && r + t + 2 <= last_syn => {
+                            if kindr != "Ok" {
+                                let class = if kindr == "Pending" { "ConnectStall" } else { "ConnectFailed" };
+                                verdict = Some((class, format!("c{c}: connect h{} -> {dst} started at r{start} gave {kindr} by r{end}; listener l{l} was bound the whole time, its backlog of {backlog} had room for certain from r{r} on, and the connector's SYN is retransmitted every {t} rounds until r{last_syn}", spec.from)));
+                            } else {
+                                sim.rep.probes.inc("connect_ok_after_backlog_room_appeared");
+                            }
+                        }
+                        _ => sim.rep.probes.inc("connect_backlog_uncertain_unjudged"),
+                    }
                 }
             }
             Some(l) if sim.ls[l].dropped_at.map(|d| d <= start).unwrap_or(false) && !covered => {
@@ -1301,6 +1324,11 @@ fn gen_scenario_raw(rng: &mut Rng, tier: Tier) -> Scenario {
     let wild = if v6 { "::" } else { "0.0.0.0" };
     let nl = rng.usize(1, 2);
     let listeners: Vec<ListenerSpec> = (0..nl).map(|l| ListenerSpec { ip: if rng.chance(1, 2) { wild.to_string() } else { rng.pick(&hosts[0]).clone() }, port: 9000 + l as u16 }).collect();
+    // two listeners may share one port under two specific addresses of the server host
+    let mut listeners = listeners;
+    if nl == 2 && hosts[0].len() == 2 && rng.chance(1, 2) {
+        listeners = vec![ListenerSpec { ip: hosts[0][0].clone(), port: 9000 }, ListenerSpec { ip: hosts[0][1].clone(), port: 9000 }];
+    }
     // one timeline in five: a receive buffer far smaller than the largest write (the window closes on an
     // end that nobody reads any more)
     let small_window = rng.chance(1, 5);
@@ -1416,7 +1444,8 @@ fn gen_pressure(rng: &mut Rng, guarded: bool, mut cfg: NetCfg, hosts: Vec<Vec<St
     }
     let n = conns.len();
     let give_up = cfg.retx_threshold * (cfg.retx_max + 2) + 3;
-    let mut ta = t + give_up;
+    // the accepts come after the late comers gave up — or early enough for their retransmitted SYNs
+    let mut ta = t + if rng.chance(1, 2) { give_up } else { rng.range(1, (cfg.retx_threshold * cfg.retx_max.saturating_sub(2)).max(1) as u64) as u32 };
     for _ in 0..n {
         tl.push((ta, Act::Accept { l: 0 }));
         ta += rng.range(0, 2) as u32;
